@@ -436,6 +436,11 @@ pub fn minimise<S: Scenario>(sc: &S, out: &Outcome, budget_ms: u64) -> (S, Outco
         orig_trace: total_len(&out.traces) as u64,
     };
     let same = |o: &Outcome| o.violation.as_ref().map(|v| v.class == class).unwrap_or(false);
+    // A step-cap violation ("tasks keep running without finishing") is only meaningful under a
+    // fair scheduler: a program that busy-waits can be starved by an edited trace ("let the
+    // previous task continue" for ever). For this class candidates are only re-searched with
+    // fresh seeded (fair) schedules and the schedule itself is not shrunk.
+    let fair_only = class.contains("LIVELOCK");
     // 1. scenario shrinking: each candidate re-searched with a few schedules
     let mut progress = true;
     while progress && (start.elapsed().as_millis() as u64) < budget_ms {
@@ -446,10 +451,14 @@ pub fn minimise<S: Scenario>(sc: &S, out: &Outcome, budget_ms: u64) -> (S, Outco
             }
             let mut found = None;
             // first try to carry the schedule over (tolerant replay), then fresh schedules
-            let o = cand.execute(&Plan::Replay { traces: best_out.traces.clone(), strict: false });
+            let o = if fair_only {
+                cand.execute(&Plan::Seeded)
+            } else {
+                cand.execute(&Plan::Replay { traces: best_out.traces.clone(), strict: false })
+            };
             if same(&o) {
                 found = Some(o);
-            } else {
+            } else if !fair_only {
                 let o = cand.execute(&Plan::Seeded);
                 if same(&o) {
                     found = Some(o);
@@ -465,7 +474,7 @@ pub fn minimise<S: Scenario>(sc: &S, out: &Outcome, budget_ms: u64) -> (S, Outco
         }
     }
     // 2. schedule shrinking: remove context switches ("let the previous task continue")
-    let mut chunk = 64usize;
+    let mut chunk = if fair_only { 0usize } else { 64usize };
     while chunk >= 1 && (start.elapsed().as_millis() as u64) < budget_ms {
         let mut improved = false;
         let traces = best_out.traces.clone();
